@@ -47,6 +47,43 @@ inductive Dec
 def maxPlaintext : Nat := 16384
 def maxCiphertext : Nat := 16384 + 2048
 
+/-! ### the length pre-checks of halfConn.decrypt, per cipher family -/
+
+inductive Family
+  | aead (explicitIV overhead : Nat)            -- AES-128-GCM (8, 16), ChaCha20-Poly1305 (0, 16)
+  | cbc (blockSize macSize explicitIV : Nat)    -- explicitIV = blockSize from TLS 1.1 on, else 0
+  | stream (macSize : Nat)                      -- RC4-SHA
+  deriving DecidableEq, Repr
+
+/-- `roundUp(a, b) = a + (b - a%b)%b` -/
+def roundUp (a b : Nat) : Nat := a + (b - a % b) % b
+
+/-- the shortest record body that can possibly be accepted -/
+def minLen : Family → Nat
+  | .aead e o => e + o
+  | .cbc bs m e => roundUp (e + m + 1) bs
+  | .stream m => m
+
+/-- `halfConn.decrypt` = the length checks that do not depend on any key, then the keyed part `inner`
+    (MAC / AEAD verification, the abstract parameter of the theorems):
+      aead:   `if len(payload) < explicitIVLen { bad_record_mac }`; cipher.AEAD.Open rejects a ciphertext shorter
+              than its tag (contract of crypto/cipher, x/crypto/chacha20poly1305: "ciphertext too short")
+      cbc:    `if len(payload)%blockSize != 0 || len(payload) < roundUp(explicitIVLen+macSize+1, blockSize) { … }`
+      stream: after XORKeyStream, `if len(payload) < macSize { bad_record_mac }`
+    none of these resizes b.data, so `5 + len(body)` bytes are left behind. -/
+def decryptFam (fam : Family) (inner : Nat → UInt8 → Bytes → Dec) (seq : Nat) (typ : UInt8) (body : Bytes) : Dec :=
+  match fam with
+  | .aead e o =>
+    if body.length < e then .fail body.length
+    else if body.length - e < o then .fail body.length
+    else inner seq typ body
+  | .cbc bs m e =>
+    if body.length % bs ≠ 0 ∨ body.length < roundUp (e + m + 1) bs then .fail body.length
+    else inner seq typ body
+  | .stream m =>
+    if body.length < m then .fail body.length
+    else inner seq typ body
+
 /-- `int(b.data[3])<<8 | int(b.data[4])` -/
 def hdrLen (l1 l2 : UInt8) : Nat := l1.toNat * 256 + l2.toNat
 
